@@ -1512,9 +1512,15 @@ func NewVM
   props C07 C06 C01
   inline
 
+// Init: a context that carries seed bytes gets a NEW generator built from them, whatever generator it had before
+// (re-seeding a used context must restart the sequence: C06); without seed bytes the generator is left alone.
 func (*Context).Init
   props C07 C06 C01
+  requires ctx != nil
   inline
+  ensures ctx.Attrs != nil && ctx.globalNames != nil
+  ensures [C06] ctx.Seed != nil ==> ctx.RandSrc != nil && isFresh(ctx.RandSrc)
+  ensures [C06] ctx.Seed == nil ==> ctx.RandSrc == old(ctx.RandSrc)
 
 func (*Context).Run
   props C07 C01
